@@ -32,6 +32,7 @@ pub mod c06_hostile;
 pub mod c08_readtake;
 pub mod c09_badchange;
 pub mod c10_qos;
+pub mod c11_matching;
 pub mod c12_lease;
 pub mod c14_msg;
 pub mod c20_waitack;
@@ -158,6 +159,7 @@ pub fn registry() -> Vec<Property> {
   v.push(c08_readtake::property());
   v.push(c09_badchange::property());
   v.push(c10_qos::property());
+  v.push(c11_matching::property());
   v.push(c12_lease::property());
   v.push(c14_msg::property());
   v.push(c20_waitack::property());
